@@ -101,6 +101,19 @@ func checkC11(c *km.Ctx) {
 			ok := ec != nil && idx == 0 && km.CalleeFull(ec.Common()) == certgenPkg+".ExtractIPNetsFromIPRestrictedX509" && isVerifiedLeaf(km.Unwrap(ec.Common().Args[0]))
 			if ok {
 				ok = c.F.At(st).All(func(k km.Conj) bool { return s.Holds(k, primErrNilCall("extract ok", ec, 1)) })
+			} else if g := extractorHelper(c, s, ec, idx); g != nil {
+				// a helper of the module that returns the extractor's netblocks for the request's verified leaf, and
+				// nothing else without an error; all its errors are nil where the netblocks are stored
+				ok = true
+				res := g.Signature.Results()
+				for i := 0; i < res.Len(); i++ {
+					if isErrorType(res.At(i).Type()) {
+						pr := primErrNilCall("helper ok", ec, i)
+						if !c.F.At(st).All(func(k km.Conj) bool { return s.Holds(k, pr) }) {
+							ok = false
+						}
+					}
+				}
 			}
 			r.Add("R-C11-3", km.FuncName(fn), "refreshed netblocks", posOf(c, st), "ExtractIPNetsFromIPRestrictedX509(r.TLS.VerifiedChains[0][0]) without error - the certificate checkAuth verified", clipS(km.ValStr(st.Val), 160), ok)
 		}
@@ -891,4 +904,45 @@ func checkMintedNetblocks(c *km.Ctx, rule string) {
 			r.Add(rule, km.FuncName(fn), "netblocks handed to the generator", posOf(c, ci), "the parameters' RequestorNetblocks, as parsed", clipS(got, 160), ok)
 		}
 	}
+}
+
+// extractorHelper: ec#idx is the result of a module helper whose every return either carries an error or returns,
+// at idx, ExtractIPNetsFromIPRestrictedX509(request's VerifiedChains[0][0])#0 under that call's err == nil.
+func extractorHelper(c *km.Ctx, s *km.Sem, ec *ssa.Call, idx int) *ssa.Function {
+	if ec == nil {
+		return nil
+	}
+	g := km.StaticCallee(ec.Common())
+	if g == nil || !c.InModule(g) || len(g.Blocks) == 0 {
+		return nil
+	}
+	res := g.Signature.Results()
+	n := 0
+	for _, rc := range s.RetCases(g) {
+		failing := false
+		for i, v := range rc.Results {
+			if i < res.Len() && isErrorType(res.At(i).Type()) && !km.IsNilConst(v) {
+				failing = true
+			}
+		}
+		if failing {
+			continue
+		}
+		if idx >= len(rc.Results) {
+			return nil
+		}
+		xc, xi := callRes(km.Unwrap(rc.Results[idx]))
+		if xc == nil || xi != 0 || km.CalleeFull(xc.Common()) != certgenPkg+".ExtractIPNetsFromIPRestrictedX509" || !isVerifiedLeaf(km.Unwrap(xc.Common().Args[0])) {
+			return nil
+		}
+		pr := primErrNilCall("extract ok", xc, 1)
+		if !rc.State.All(func(k km.Conj) bool { return s.Holds(k, pr) }) {
+			return nil
+		}
+		n++
+	}
+	if n == 0 {
+		return nil
+	}
+	return g
 }
